@@ -23,29 +23,27 @@ Proof. intros H. unfold signum. destruct (Rle_dec 0 x); [reflexivity | contradic
 Lemma signum_neg x : x < 0 -> signum x = -1.
 Proof. intros H. unfold signum. destruct (Rle_dec 0 x); [lra | reflexivity]. Qed.
 
-(* For a non-negative signal polar angle (and a forward signal, cos th > 0) the idler angle is asin val, or pi - asin val in the
-   counter-propagating branch.  The proof script does not depend on whether the source multiplies by signum(theta_s) (as it
-   does now: see Findings/C03_negative_theta.v) or not: for 0 <= th that factor is 1. *)
-Lemma idler_theta_nonneg cp th v : 0 < cos th -> 0 <= th ->
+(* For a forward signal (cos th > 0) the idler angle is asin val — which carries the sign of the signal angle through val —
+   or pi - asin val in the counter-propagating branch. *)
+Lemma idler_theta_branch cp th v : 0 < cos th ->
   idler_theta cp th v = if cp then PI - asin v else asin v.
 Proof.
-  intros Hc H0. unfold idler_theta. rewrite !Rdiv_1.
-  rewrite ?(signum_pos th H0). rewrite ?Rmult_1_r.
+  intros Hc. unfold idler_theta. rewrite !Rdiv_1, Rmult_1_r.
   rewrite (signum_pos (cos th)) by lra.
   destruct (Rlt_dec 1 0) as [H|H]; [lra|]. destruct cp; cbn; reflexivity.
 Qed.
 
-Lemma idler_theta_sin_nonneg cp th v : 0 < cos th -> 0 <= th -> -1 <= v <= 1 -> sin (idler_theta cp th v) = v.
+Lemma idler_theta_sin cp th v : 0 < cos th -> -1 <= v <= 1 -> sin (idler_theta cp th v) = v.
 Proof.
-  intros Hc H0 Hv. rewrite idler_theta_nonneg by assumption. destruct cp.
+  intros Hc Hv. rewrite idler_theta_branch by assumption. destruct cp.
   - replace (PI - asin v) with (- (asin v) + PI) by ring. rewrite neg_sin, sin_neg, sin_asin by assumption. ring.
   - apply sin_asin; assumption.
 Qed.
 
-Lemma idler_theta_cos_nonneg cp th v : 0 < cos th -> 0 <= th -> -1 <= v <= 1 ->
+Lemma idler_theta_cos cp th v : 0 < cos th -> -1 <= v <= 1 ->
   cos (idler_theta cp th v) = (if cp then -1 else 1) * sqrt (1 - v²).
 Proof.
-  intros Hc H0 Hv. rewrite idler_theta_nonneg by assumption. destruct cp.
+  intros Hc Hv. rewrite idler_theta_branch by assumption. destruct cp.
   - replace (PI - asin v) with (- (asin v) + PI) by ring. rewrite neg_cos, cos_neg, cos_asin by assumption. ring.
   - rewrite cos_asin by assumption. ring.
 Qed.
@@ -189,8 +187,8 @@ Section Idler.
     destruct (Rle_dec ls lp); [lra | reflexivity].
   Qed.
 
-  (* direction of the idler for a non-negative signal angle: transverse part -val (cos phi, sin phi), longitudinal part
-     beta sqrt(1 - val^2), beta = -1 in the counter-propagating branch *)
+  (* direction of the idler: transverse part -val (cos phi, sin phi), longitudinal part beta sqrt(1 - val^2),
+     beta = -1 in the counter-propagating branch *)
   Lemma idler_azimuth_polar t : polar (idler_phi (beam_new_phi phis)) t = polar (phis + PI) t.
   Proof.
     change beam_new_phi with normalize_angle. rewrite idler_phi_eq.
@@ -200,16 +198,16 @@ Section Idler.
     replace t with (t + 2 * IZR 0 * PI) at 1 by ring. apply polar_period.
   Qed.
 
-  Lemma idler_dir_nonneg : 0 <= ths -> w_z <> 0 ->
+  Lemma idler_dir : w_z <> 0 ->
     b_dir idler_b = (- (opt_val index sigb pumpb pp * cos phis),
                      - (opt_val index sigb pumpb pp * sin phis),
                      (if cp then -1 else 1) * sqrt (1 - (opt_val index sigb pumpb pp)²)).
   Proof.
-    intros H0 Hw. destruct (defined_of_wz Hw) as (_ & _ & Hv).
+    intros Hw. destruct (defined_of_wz Hw) as (_ & _ & Hv).
     unfold idler_b, beam_new; cbn [b_dir]. rewrite beam_new_direction_eq, sig_theta.
     unfold sigb at 1, beam_new; cbn [b_phi].
     rewrite idler_azimuth_polar, polar_phi_pi.
-    rewrite idler_theta_sin_nonneg, idler_theta_cos_nonneg by assumption.
+    rewrite idler_theta_sin, idler_theta_cos by assumption.
     vec_cmp; ring.
   Qed.
 
@@ -230,25 +228,25 @@ Section Idler.
     rewrite closing_vector_eq. unfold vscale, vx, vy, vz; cbn [fst snd]. vec_cmp; field; lra.
   Qed.
 
-  (* Theorem 3 (forward): co-propagating setup, non-negative signal polar angle, closing vector pointing forward
-     ->  the idler direction is exactly the unit vector of the closing vector *)
-  Lemma idler_parallel_forward : cp = false -> 0 <= ths -> 0 < vz (closing_vector index sigb pumpb pp) ->
+  (* Theorem 3 (forward): co-propagating setup, closing vector pointing forward
+     ->  the idler direction is exactly the unit vector of the closing vector (signal polar angle of either sign) *)
+  Lemma idler_parallel_forward : cp = false -> 0 < vz (closing_vector index sigb pumpb pp) ->
     b_dir idler_b = vscale (/ vnorm (closing_vector index sigb pumpb pp)) (closing_vector index sigb pumpb pp).
   Proof.
-    intros Hcp H0 Hz. rewrite closing_z in Hz. pose proof Kq_pos as HK.
+    intros Hcp Hz. rewrite closing_z in Hz. pose proof Kq_pos as HK.
     assert (Hw : 0 < w_z) by nra.
-    rewrite idler_dir_nonneg, closing_unit by lra. subst cp.
+    rewrite idler_dir, closing_unit by lra. subst cp.
     rewrite sqrt_one_minus_val2 by lra. rewrite (Rabs_right w_z) by lra.
     vec_cmp; ring.
   Qed.
 
   (* counter-propagating setups take the pi - asin branch: the idler closes the triangle when the closing vector points backward *)
-  Lemma idler_parallel_backward : cp = true -> 0 <= ths -> vz (closing_vector index sigb pumpb pp) < 0 ->
+  Lemma idler_parallel_backward : cp = true -> vz (closing_vector index sigb pumpb pp) < 0 ->
     b_dir idler_b = vscale (/ vnorm (closing_vector index sigb pumpb pp)) (closing_vector index sigb pumpb pp).
   Proof.
-    intros Hcp H0 Hz. rewrite closing_z in Hz. pose proof Kq_pos as HK.
+    intros Hcp Hz. rewrite closing_z in Hz. pose proof Kq_pos as HK.
     assert (Hw : w_z < 0) by nra.
-    rewrite idler_dir_nonneg, closing_unit by lra. subst cp.
+    rewrite idler_dir, closing_unit by lra. subst cp.
     rewrite sqrt_one_minus_val2 by lra. rewrite (Rabs_left w_z) by lra.
     vec_cmp; field. destruct (defined_of_wz (Rlt_not_eq _ _ Hw)) as (_ & Ha & _).
     apply Rgt_not_eq, sqrt_lt_R0, Ha.
@@ -261,9 +259,9 @@ Section Idler.
     assert (Hv : opt_val index sigb pumpb pp = 0).
     { rewrite opt_val_eq. unfold u_t. rewrite H0, sin_0. unfold Rdiv. ring. }
     split.
-    - unfold idler_b, beam_new; cbn [b_theta]. rewrite sig_theta, Hv, idler_theta_nonneg by (try assumption; lra).
+    - unfold idler_b, beam_new; cbn [b_theta]. rewrite sig_theta, Hv, idler_theta_branch by assumption.
       subst cp. rewrite asin_0. rewrite beam_new_theta_eq. apply normalize_angle_signed_id. pose proof PI_RGT_0. lra.
-    - rewrite idler_dir_nonneg by (try assumption; lra). rewrite Hv. subst cp. unfold Rsqr, ez.
+    - rewrite idler_dir by assumption. rewrite Hv. subst cp. unfold Rsqr, ez.
       replace (1 - 0 * 0) with 1 by ring. rewrite sqrt_1. vec_cmp; ring.
   Qed.
 
